@@ -126,6 +126,9 @@ func load(repo, tier string, goarch string) (*Ctx, error) {
 		c.cg = chaG
 		c.cgAlg = "CHA"
 	}
+	if goarch == "" {
+		theCtx = c
+	}
 	return c, nil
 }
 
